@@ -82,13 +82,14 @@ fn main() {
       .map(|a| a.iter().filter_map(|x| x.as_u64()).map(|x| x as u32).collect())
       .unwrap_or_default();
     // a replay file may come from either tier
-    let mut code = report::replay(&plan.jobs, &scenario, choices.clone());
-    if code == 2 {
+    let mut plan = plan;
+    if !plan.jobs.iter().any(|j| j.name == scenario) {
       let other = if tier == Tier::Quick { Tier::Thorough } else { Tier::Quick };
       if let Some(p2) = props::plan(&prop, other) {
-        code = report::replay(&p2.jobs, &scenario, choices);
+        plan = p2;
       }
     }
+    let code = report::replay(plan.jobs, &scenario, choices);
     std::process::exit(code);
   }
   let rep = report::run_jobs(plan.jobs, threads);
